@@ -19,8 +19,8 @@ EXTRACT = ["C12"]
 BINS = ["c12"]
 NEEDS_CICADA = True
 ALLOWED_AXIOMS = []
-PINNED = ["C12_brace", "C12_brace_any_group", "C12_order", "C12_range", "C12_range_total", "C12_home", "C12_glob",
-          "C12_full", "C12_refuted", "C12_refuted_affixes"]
+PINNED = ["C12_brace", "C12_brace_any_group", "C12_order", "C12_order_range", "C12_range", "C12_range_affixes", "C12_range_total",
+          "C12_home", "C12_glob", "C12_glob_hidden_dir"]
 TRUSTED = [
     "Coq 8.16.1 kernel (coqc; coqchk in thorough); vm_compute only in concrete witnesses / non-vacuity examples",
     "hand transcription of need_expand_brace / brace_getitem / brace_getgroup / expand_brace / expand_brace_range / "
@@ -299,31 +299,11 @@ def run(ctx, res):
     ic = C.run_impl(ctx.bins["c12"], pc, len(lc), timeout=600)
     res.count("L1c_ranges", len(lc))
     for cs, m, a, b in zip(lc, meta, mc, ic):
-        if a != b and m is not None and (m[3] or m[4]) and "range_affixes_dropped" in known and \
-                b == toks_line([m[5][0]] + [retag(m[3] + str(v) + m[4]) for v in ref_range(m[0], m[1], m[2] or 1)] + m[5][2:]):
-            res.extra.setdefault("findings_no_longer_reproducing", []).append("range_affixes_dropped")
-            continue
-        if a != b and m is None and "range_affixes_dropped" in known:
-            tk = parse_toks(cs and C.dec(cs.split("\t")[2]).replace("\x1f", "\x00") and "") or \
-                [(X_TAGS[e[0]], e[1:]) for e in C.dec(cs.split("\t")[2]).split("\x1f")]
-            mm = re.search(r"\{(-?[0-9]+)\.\.(-?[0-9]+)(\.\.)?([0-9]+)?\}", tk[1][1])
-            if mm and (mm.start() > 0 or mm.end() < len(tk[1][1])):
-                x, y, st = int(mm.group(1)), int(mm.group(2)), int(mm.group(4) or 1)
-                if I32MIN <= x <= I32MAX and I32MIN <= y <= I32MAX and st <= I32MAX:
-                    want = [("", "5"), ("", "6")] + [retag(tk[1][1][:mm.start()] + str(v) + tk[1][1][mm.end():]) for v in ref_range(x, y, st)] + [tk[2]]
-                    if b == toks_line(want):
-                        res.extra.setdefault("findings_no_longer_reproducing", []).append("range_affixes_dropped")
-                        continue
-        if a != b and m is None and "range_abort_drops_all" in known:
-            tk = parse_toks(a)
-            if len(tk) == 3 and tk[0] == ("", "{5..6}") and b == toks_line([("", "5"), ("", "6")] + tk[1:]):
-                res.extra.setdefault("findings_no_longer_reproducing", []).append("range_abort_drops_all")
-                continue
         if a != b and m is not None and a == "PANIC" and "range_i32_overflow" in known and not m[3] and not m[4] and \
                 b == toks_line([m[5][0]] + [retag(str(v)) for v in ref_range(m[0], m[1], m[2] or 1)] + m[5][2:]):
             res.extra.setdefault("findings_no_longer_reproducing", []).append("range_i32_overflow")
             continue
-        if a != b:
+        if a != b and m is None:
             violate(kind="correspondence", layer="L1c", input=cs, model=a, impl=b, failing_input=False,
                     note="expand_brace_range of the implementation differs from the model")
             continue
@@ -331,6 +311,12 @@ def run(ctx, res):
             continue
         x, y, s, pre, post, toks = m
         exp = toks_line([toks[0]] + [retag(pre + str(v) + post) for v in ref_range(x, y, s or 1)] + toks[2:])
+        if a != b:
+            bad = b != exp
+            violate(kind="oracle" if bad else "correspondence", layer="L1c", input=toks[1][1], expected=exp, observed=b, model=a,
+                    failing_input=bad, note="expand_brace_range of the implementation differs from the model"
+                    + (" and from the inclusive sequence with the text around the braces kept" if bad else ""))
+            continue
         res.nontrivial("c:%s" % (m[:5],))
         if b == exp:
             continue
@@ -502,10 +488,6 @@ def run(ctx, res):
                 pg = [p]
             exp = toks_line([toks[0]] + [retag(x) for x in pg] + toks[2:])
             res.nontrivial("e:%s:%s" % (os.path.basename(d), p))
-            if differs and b == exp and "hidden_directory_component" in known and \
-                    any(c.startswith(".") and c not in (".", "..") for x in (tbl or []) for c in x.split("/")[:-1]):
-                res.extra.setdefault("findings_no_longer_reproducing", []).append("hidden_directory_component")
-                continue
             if differs and (b == exp or "[" in p or "**" in p):
                 violate(kind="correspondence", layer="L1e", dir=d, input=toks_line(toks), model=a, impl=b,
                         failing_input=False, note="expand_glob of the implementation differs from the model")
@@ -535,7 +517,7 @@ def run(ctx, res):
               ("pre ./sub/* 'q*' post", ["pre", "sub/x.txt", "sub/y z", "q*", "post"], None),
               ("~/q", [d0 + "/q"], None), ("'{a,b}' \"*.txt\" '~'", ["{a,b}", "*.txt", "~"], None),
               ("k {a,b} *.txt {1..2} m", ["k", "a", "b", "a.txt", "b.txt", "c d.txt", "1", "2", "m"], None),
-              ("a{1..3}b", ["a1b", "a2b", "a3b"], "range_affixes_dropped"),
+              ("a{1..3}b", ["a1b", "a2b", "a3b"], None), ("x{3..1}y {1..99999999999} {1..2}", ["x3y", "x2y", "x1y", "{1..99999999999}", "1", "2"], None),
               ("{a}{b,c}", ["{a}b", "{a}c"], None), ("x{a}y", ["x{a}y"], None),
               ("{2147483646..2147483647}", ["2147483646", "2147483647"], None),
               ("{-2147483647..-2147483648}", ["-2147483647", "-2147483648"], None)]
